@@ -1,6 +1,7 @@
 package c16
 
 import (
+	"sync"
 	"os"
 	"verif/internal/mon"
 	"fmt"
@@ -116,4 +117,32 @@ func TestStarvedRealSSH(t *testing.T) {
 	}
 	close(stop)
 	fmt.Println("bad", bad, "of 12")
+}
+
+func TestParallelRealSSH(t *testing.T) {
+	os.Setenv("C16_DIR", t.TempDir())
+	var wg sync.WaitGroup
+	var mu sync.Mutex
+	bad, total := 0, 0
+	for g := 0; g < 64; g++ {
+		wg.Add(1)
+		go func(g int) {
+			defer wg.Done()
+			for i := 0; i < 12; i++ {
+				d := Desc{Kind: "e2e-netconf", T: "system-ssh", Version: "1.1", ReadSize: 8192, Seed: int64(399589561300 + g*100 + i)}
+				r := runE2ENC(d)
+				mu.Lock()
+				total++
+				if r.Verdict != mon.Held {
+					bad++
+					if bad <= 3 {
+						fmt.Printf("%s %s %.1500s\n", r.Verdict, r.Key, r.Detail)
+					}
+				}
+				mu.Unlock()
+			}
+		}(g)
+	}
+	wg.Wait()
+	fmt.Println("bad", bad, "of", total)
 }
